@@ -129,6 +129,15 @@ PIPELINE_ITEM = {
 }
 
 
+# (b') study sizes of the format workflows: one tile; 2x2 and 4x4 tile grids partly populated; thorough adds the largest
+# one-tile image, a sparse 2x2 and a sparse 8x8 grid.  Input kinds: what the input carries itself is MEASURED on the real
+# object (Own), which formats can hold its pixels is a fact about the pixels (a float image is not a PNG / JPEG).
+FORMAT_SIZES = {True: [(200, 150), (300, 200), (520, 300)],
+                False: [(200, 150), (256, 256), (257, 100), (300, 200), (520, 300), (1030, 200)]}
+STUDY_KINDS = {"bitmap": "all", "float-npy": ("npy", "fits"), "fits-file": ("npy", "fits")}
+TOAST_KINDS = {"rgb-sampler": "all", "float-sampler": ("npy", "fits")}
+
+
 def make_inputs(d, quick):
     inp = {}
     for name, (w, h, ext) in {"study_png": (700, 500, "png"), "study_jpg": (520, 300, "jpg"), "sky": (64, 32, "png"),
@@ -156,6 +165,13 @@ def make_inputs(d, quick):
                                       }.items():
         inp[name] = os.path.join(d, "%s.fits" % name)
         _mkfits(inp[name], w, h, sc, ra, dec)
+    # the library route with the pyramid's format chosen independently of the input's own: one bitmap and one FITS file per
+    # study size (the float arrays are made where they are used)
+    for w, h in FORMAT_SIZES[quick]:
+        inp["fm_bitmap_%dx%d" % (w, h)] = os.path.join(d, "fm_%dx%d.png" % (w, h))
+        _mkimg(inp["fm_bitmap_%dx%d" % (w, h)], w, h)
+        inp["fm_fits-file_%dx%d" % (w, h)] = os.path.join(d, "fm_%dx%d.fits" % (w, h))
+        _mkfits(inp["fm_fits-file_%dx%d" % (w, h)], w, h, 0.001)
     # two images of different sizes on ONE pixel grid (same CRVAL/CDELT, different CRPIX): the multi-TAN path
     for name, (w, h, crpix) in {"N1": (300, 260, (150.5, 130.5)), "N2": (520, 300, (-129.5, 170.5))}.items():
         inp[name] = os.path.join(d, "%s.fits" % name)
@@ -342,6 +358,77 @@ def _builder_study(outdir, arg):
     bld.write_index_rel_wtml()
 
 
+def _format_sampler(kind):
+    import numpy as np
+    if kind == "rgb-sampler":
+        def sampler(lon, lat):
+            v = ((lon + lat) * 40).astype(np.int64) % 256
+            return np.stack([v, 255 - v, (v * 3) % 256], axis=-1).astype(np.uint8)
+    else:
+        def sampler(lon, lat):
+            return (lon + 2 * lat).astype(np.float32)
+    return sampler
+
+
+def _format_image(kind, path, w, h):
+    import numpy as np
+    from toasty.image import Image, ImageLoader
+    if kind == "float-npy":
+        return Image.from_array(((np.arange(w * h) % 977) + 1.0).reshape(h, w).astype(np.float32), default_format="npy")
+    return ImageLoader().load_path(path)
+
+
+def _own_formats():
+    """What each input kind carries itself (Image.default_format), measured on the real objects."""
+    import numpy as np
+    import tempfile
+    from toasty.image import Image
+    own = {}
+    with tempfile.TemporaryDirectory() as d:
+        _mkimg(os.path.join(d, "a.png"), 8, 8)
+        _mkfits(os.path.join(d, "a.fits"), 8, 8, 0.001)
+        own["bitmap"] = _format_image("bitmap", os.path.join(d, "a.png"), 8, 8).default_format
+        own["fits-file"] = _format_image("fits-file", os.path.join(d, "a.fits"), 8, 8).default_format
+        own["float-npy"] = _format_image("float-npy", None, 8, 8).default_format
+    lon = np.zeros((4, 4))
+    for k in TOAST_KINDS:
+        own[k] = Image.from_array(_format_sampler(k)(lon, lon)).default_format
+    return own
+
+
+def _builder_formats(outdir, arg):
+    """The library route with the tile format of the PyramidIO chosen by the caller, whatever the input carries itself:
+    Builder.tile_base_as_study | prepare_ + execute_study_tiling | study.tile_study_image | Builder.toast_base, then
+    Builder.cascade and write_index_rel_wtml."""
+    from toasty.builder import Builder
+    from toasty.pyramid import PyramidIO
+    pio = PyramidIO(outdir, scheme=arg["scheme"], default_format=arg["fmt"])
+    if arg["route"] == "toast":
+        bld = Builder(pio)
+        kw = {"format": arg["req"]} if arg["req"] else {}
+        bld.toast_base(_format_sampler(arg["kind"]), arg["depth"], parallel=1, **kw)
+    else:
+        img = _format_image(arg["kind"], arg.get("image"), arg["w"], arg["h"])
+        if arg["route"] == "base":
+            bld = Builder(pio)
+            bld.tile_base_as_study(img)
+            bld.default_tiled_study_astrometry()
+        elif arg["route"] == "prepare":
+            bld = Builder(pio)
+            tiling = bld.prepare_study_tiling(img)
+            bld.default_tiled_study_astrometry()
+            bld.execute_study_tiling(img, tiling)
+        else:
+            from toasty.study import tile_study_image
+            tiling = tile_study_image(img, pio)
+            bld = Builder(pio)
+            tiling.apply_to_imageset(bld.imgset)
+            bld.default_tiled_study_astrometry()
+    bld.cascade(parallel=1)
+    bld.set_name("formats")
+    bld.write_index_rel_wtml()
+
+
 def _spell(outdir, style):
     """The output directory as the caller names it (the working directory is its parent for the relative styles)."""
     if style == "abs":
@@ -390,6 +477,8 @@ def run_workflow(wf):
                 os.chdir(os.path.dirname(outdir))       # the directory is named relative to the working directory
             import warnings
             from toasty import cli, tile_fits, TilingMethod
+            if wf.get("start_empty"):       # the caller made the output directory beforehand (tempfile.mkdtemp())
+                os.makedirs(outdir)
             for kind, arg in wf["steps"]:
                 extra = {}
                 with warnings.catch_warnings():
@@ -403,8 +492,14 @@ def run_workflow(wf):
                         outdir = _pipeline_step(wf["outdir"], arg["image"])
                     elif kind == "builder-study":
                         _builder_study(outdir, arg)
+                    elif kind == "builder-formats":
+                        try:
+                            _builder_formats(outdir, arg)
+                        except Exception as e:      # a loud failure: whether an index exists all the same is observed below
+                            extra["raised"] = repr(e)[:300]
                     elif kind == "tile_fits":
                         extra["existed"] = os.path.isdir(outdir)
+                        extra["was_empty"] = extra["existed"] and not os.listdir(outdir)
                         given = _spell(outdir, wf.get("path_style", "abs"))
                         how = arg.get("interrupt")
                         kw = {}
@@ -435,6 +530,7 @@ def run_workflow(wf):
                     elif kind == "view":        # `toasty view --tile-only`: the output directory is derived from the first
                         #                         input's name; the names it can derive are links to this history's directory
                         extra["existed"] = os.path.isdir(outdir)
+                        extra["was_empty"] = extra["existed"] and not os.listdir(outdir)
                         d = os.path.dirname(outdir)
                         fits = arg["fits"] if isinstance(arg["fits"], list) else [arg["fits"]]
                         paths = []
@@ -501,6 +597,44 @@ def history_module(pops, ext, emit_from, only_interrupted=False):
     return tla.module("MCWtmlHistory", ["WtmlHistory", "Json"], defs)
 
 
+def _fn(d):
+    return " @@ ".join("(%s :> %s)" % (tla.lit(k), v) for k, v in sorted(d.items()))
+
+
+def formats_module(formats, own, sizes, depths):
+    allf = set(tuple(chars(f)) for f in formats)
+    stor = dict(STUDY_KINDS, **TOAST_KINDS)
+    defs = [("MCFormats", tla.lit(allf)), ("MCStudyKinds", tla.lit(set(STUDY_KINDS))), ("MCToastKinds", tla.lit(set(TOAST_KINDS))),
+            ("MCOwn", _fn({k: tla.lit(chars(own[k])) for k in stor})),
+            ("MCStorable", _fn({k: tla.lit(allf if v == "all" else set(tuple(chars(f)) for f in v)) for k, v in stor.items()})),
+            ("MCStudySizes", tla.lit(set(sizes))), ("MCToastDepths", tla.lit(set(depths))),
+            'Emit == (stage \\in {"indexed", "refused", "raised"}) => PrintT(<<"F", ToJson([cfg |-> cfg, stage |-> stage, '
+            'files |-> Names, url |-> wtml.url, ftype |-> wtml.ftype, levels |-> wtml.levels])>>)']
+    return tla.module("MCWtmlFormats", ["WtmlFormats", "Json"], defs)
+
+
+FORMATS_CFG = """SPECIFICATION Spec
+CONSTANTS
+ Formats <- MCFormats
+ StudyKinds <- MCStudyKinds
+ ToastKinds <- MCToastKinds
+ Own <- MCOwn
+ Storable <- MCStorable
+ StudySizes <- MCStudySizes
+ ToastDepths <- MCToastDepths
+ BaseWrites = "%(base)s"
+ Recorded = "%(recorded)s"
+ Request = "%(request)s"
+INVARIANT TemplateAddressesFiles
+INVARIANT LevelsIsDeepest
+INVARIANT FileTypeIsExt
+INVARIANT JudgeAgrees
+INVARIANT RefusedOnlyMismatched
+INVARIANT TilesValid
+INVARIANT Emit
+CHECK_DEADLOCK FALSE
+"""
+
 WALK_CFG = """SPECIFICATION WSpec
 CONSTANTS
  Exts <- MCExts
@@ -527,6 +661,8 @@ CONSTANTS
  OverrideClears = %(clears)s
  Cache = "%(cache)s"
  Partial = "%(partial)s"
+ StartEmpty = %(startempty)s
+ EmptyDir = "%(emptydir)s"
 INVARIANT ReturnedAgrees
 INVARIANT CompletedIsIndexed
 INVARIANT TemplateAddressesFiles
@@ -741,9 +877,15 @@ def run(ctx):
         from concurrent.futures import ThreadPoolExecutor
         wdepth = 5 if quick else 8
         wmod = tla.module("MCWtmlWalk", ["WtmlWalk"], [("MCExts", tla.lit(set(tuple(chars(e)) for e in formats)))])
-        walker = ThreadPoolExecutor(1)
+        walker = ThreadPoolExecutor(2)
         walk_run = walker.submit(ctx.tlc, "MCWtmlWalk", extra={"MCWtmlWalk.tla": wmod}, cfg_text=WALK_CFG % wdepth,
                                  workers=4 if quick else 8, timeout=3000)
+        # (b') the format machine (WtmlFormats.tla): every (scheme, pyramid format, input kind, entry point, size / depth, and
+        # for the all-sky route an explicit format= request) with the pyramid's format chosen independently of the input's own
+        own = _own_formats()
+        fmod = {"MCWtmlFormats.tla": formats_module(formats, own, FORMAT_SIZES[quick], [1] if quick else [1, 2])}
+        fcfg = {"base": "pyramid", "recorded": "pyramid", "request": "refused"}
+        formats_run = walker.submit(ctx.tlc, "MCWtmlFormats", extra=fmod, cfg_text=FORMATS_CFG % fcfg, workers=2, timeout=1800)
         ctx.tlc("MCWtmlNaming", extra={"MCWtmlNaming.tla": naming_module(combos, depth, deep, formats)}, cfg_text="",
                 env={"OUT": outp}, workers=1, timeout=900, count=False)
         table = json.load(open(outp))
@@ -796,9 +938,71 @@ def run(ctx):
 
         # the same theorems as invariants of a walk over every position to depth 5 (thorough 8), every scheme and format
         rw = walk_run.result()
-        walker.shutdown()
         ctx.note("walk", {"depth": wdepth, "states": rw.distinct})
         lap("naming")
+        # ---------------------------------------------------------------- (b') the format cases TLC emitted -> replays
+        rf = formats_run.result()
+        walker.shutdown()
+        frows = rf.json_lines("F")
+        for r in frows:
+            g = r["cfg"]
+            g["fmt"], g["req"] = join(g["fmt"]), join(g["req"])
+        fkey = lambda r: [r["cfg"][k] for k in ("route", "kind", "fmt", "scheme", "w", "h", "depth", "req")]      # noqa: E731
+        frows.sort(key=fkey)
+        if not frows or not all(r["stage"] in ("indexed", "refused") for r in frows):
+            ctx.machinery("the format machine emitted %d cases, stages %s" % (len(frows), sorted(set(r["stage"] for r in frows))))
+        if quick:
+            # every (input kind, pyramid format, scheme) with the entry points and the multi-level sizes in rotation (offset by
+            # the seed); one single-tile study per (kind, scheme); the all-sky route: every (kind, format) without a request,
+            # one request for the pyramid's own format, and one mismatched request per pyramid format
+            off = ctx.seed % 6
+            multi = [z for z in FORMAT_SIZES[True] if max(z) > 256]
+            single = [z for z in FORMAT_SIZES[True] if max(z) <= 256][0]
+            routes = ["base", "prepare", "direct"]
+            want, n = [], off
+            for kind in sorted(STUDY_KINDS):
+                for sch in ("L/Y/YX", "LXY"):
+                    fs = sorted(set(r["cfg"]["fmt"] for r in frows if r["cfg"]["kind"] == kind))
+                    for f in fs:
+                        want.append((routes[n % 3], kind, f, sch) + multi[(n // 3) % len(multi)] + (0, ""))
+                        n += 1
+                    want.append((routes[n % 3], kind, fs[n % len(fs)], sch) + single + (0, ""))
+            for kind in sorted(TOAST_KINDS):
+                fs = sorted(set(r["cfg"]["fmt"] for r in frows if r["cfg"]["kind"] == kind))
+                for f in fs:
+                    want.append(("toast", kind, f, ("L/Y/YX", "LXY")[n % 2], 0, 0, 1, ""))
+                    n += 1
+            storable = lambda k: [x for x in formats if TOAST_KINDS[k] == "all" or x in TOAST_KINDS[k]]      # noqa: E731
+            for j, f in enumerate(formats):
+                ks = [k for k in sorted(TOAST_KINDS) if f in storable(k)]
+                k = ks[(j + off) % len(ks)]
+                oq = [q for q in storable(k) if q != f]
+                want.append(("toast", k, f, ("L/Y/YX", "LXY")[(j + off) % 2], 0, 0, 1, oq[(j + off) % len(oq)]))
+            want.append(("toast", sorted(TOAST_KINDS)[off % 2], "fits" if "fits" in formats else "npy", "L/Y/YX", 0, 0, 1,
+                         "fits" if "fits" in formats else "npy"))
+            by = {tuple(fkey(r)): r for r in frows}
+            missing = [t for t in want if tuple(t) not in by]
+            if missing:
+                ctx.machinery("the format machine did not emit the cases %s" % missing[:3])
+            fsel = [by[tuple(t)] for t in sorted(set(want))]
+        else:
+            fsel = frows
+        fflows = []
+        for n, r in enumerate(fsel):
+            g = r["cfg"]
+            mism = bool(g["req"]) and g["req"] != g["fmt"]
+            grp = "builder-toast-format-kwarg" if mism else ("builder-toast-formats" if g["route"] == "toast" else "builder-study-formats")
+            arg = dict(g)
+            if g["route"] != "toast" and g["kind"] != "float-npy":
+                arg["image"] = inp["fm_%s_%dx%d" % (g["kind"], g["w"], g["h"])]
+            w = wf("fmt-%d" % n, [("builder-formats", arg)], grp)
+            w["fspec"] = r
+            fflows.append(w)
+        ctx.note("format_cases", {"machine_states": rf.distinct, "emitted": len(frows), "replayed": len(fflows), "own_formats": own,
+                                  "pyramid_format_differs_from_own": sum(1 for r in fsel if r["cfg"]["fmt"] != own[r["cfg"]["kind"]]),
+                                  "explicit_format_requests": sum(1 for r in fsel if r["cfg"]["req"])})
+        pending_f = pool.map_async(run_workflow, fflows, chunksize=2)
+        lap("formats_tlc")
         # ---------------------------------------------------------------- collect the workflows
         done = pending.get(3000)
         lap("workflows")
@@ -829,7 +1033,7 @@ def run(ctx):
         # which state kept by the calling process across an override can show) plus a seeded sample of the others.
         hmod = {"MCWtmlHistory.tla": history_module(pops, FITS_EXT, 3 if quick else 4)}
         cfg = {"scheme": "L/Y/YX", "maxlen": 4, "restores": "TRUE", "clears": "TRUE", "cache": "none", "fails": 0, "views": "FALSE",
-               "partial": "asfound"}
+               "partial": "asfound", "startempty": "FALSE", "emptydir": "tiled"}
         rh = ctx.tlc("MCWtmlHistory", extra=hmod, cfg_text=HISTORY_CFG % cfg, workers=4, timeout=1800)
         hkey = lambda h: [(st["input"], st["override"], st["via"], st["kind"] if st["via"] == "interrupted" else "") for st in h]      # noqa: E731
         allh = sorted(rh.json_lines("H"), key=hkey)
@@ -882,6 +1086,20 @@ def run(ctx):
         ihists.sort(key=hkey)
         ctx.note("interrupted_histories", {"inputs": sorted(ipops), "explored_calls": 3, "states": ri.distinct, "generated": len(ih),
                                            "replayed": len(ihists)})
+        # A DIRECTORY THAT EXISTS, EMPTY, BEFORE THE FIRST CALL (the caller made it: tempfile.mkdtemp()): the same machine started
+        # with the directory present; nothing in it was left by an earlier call, so the first call is the fresh call of its
+        # history.  Explored to 2 calls (thorough 3, with `toasty view`), every history replayed.
+        epops = {i: pops[i] for i in (["A", "S"] if quick else hist_inputs) if i in pops} or dict(pops)
+        emod = {"MCWtmlHistory.tla": history_module(epops, FITS_EXT, 2 if quick else 3)}
+        ecfg = dict(cfg, maxlen=2 if quick else 3, startempty="TRUE", views="FALSE" if quick else "TRUE")
+        re_ = ctx.tlc("MCWtmlHistory", extra=emod, cfg_text=HISTORY_CFG % ecfg, workers=2, timeout=1800)
+        ehists = sorted(re_.json_lines("H"), key=hkey)
+        if not ehists or not all(h[0]["kind"] == "fresh" and h[0]["indexed"] for h in ehists):
+            ctx.machinery("the machine started on an existing empty directory emitted %d histories; the first call must be fresh and "
+                          "leave an index" % len(ehists))
+        ctx.note("empty_directory_histories", {"inputs": sorted(epops), "explored_calls": ecfg["maxlen"], "states": re_.distinct,
+                                               "replayed": len(ehists)})
+        lap("empty_tlc")
         # the output directory is named in turn by its absolute path, relative to the working directory, and by a
         # differently spelled relative path; the stale-cache family never uses the absolute spelling
         hflows = []
@@ -922,32 +1140,48 @@ def run(ctx):
                     w["outdir"] = os.path.join(os.path.dirname(w["outdir"]), "$C17VAR", "out-${C17VAR}-%s")
                 hflows.append(w)
         ctx.note("history_replays_symlink_or_literal_name", len(hflows) - nbase)
+        for n, h in enumerate(ehists):
+            w = wf("hist-%d" % len(hflows), [step_of(st, False) for st in h], "tile_fits-empty-dir")
+            w["spec"] = h
+            w["start_empty"] = True
+            w["path_style"] = ("abs", "rel")[n % 2]
+            hflows.append(w)
         ctx.note("history_replay_selection", {"explored_calls": 4, "replayed": len(hists), "of_4_calls": sum(1 for h in hists if len(h) == 4),
                                               "fresh_reuse_override_reuse": sum(1 for h in hists if stale_shape(h))})
         pending_h = pool.map_async(run_workflow, hflows, chunksize=2)
         # while the replays run: the machine must be able to tell the defects apart (both variants are refuted)
-        variants = [(cfg, hmod, {"restores": "FALSE", "maxlen": 3}, "ReturnedAgrees"), (cfg, hmod, {"clears": "FALSE", "maxlen": 3}, "LevelsIsDeepest"),
-                    (cfg, hmod, {"cache": "stale"}, "ReturnedAgrees"),
-                    (icfg, imod, {"partial": "view-indexes"}, "LevelsIsDeepest"), (icfg, imod, {"partial": "index-guards"}, "LevelsIsDeepest")]
+        H, F = ("MCWtmlHistory", HISTORY_CFG), ("MCWtmlFormats", FORMATS_CFG)
+        variants = [(H, cfg, hmod, {"restores": "FALSE", "maxlen": 3}, "ReturnedAgrees"), (H, cfg, hmod, {"clears": "FALSE", "maxlen": 3}, "LevelsIsDeepest"),
+                    (H, cfg, hmod, {"cache": "stale"}, "ReturnedAgrees"),
+                    (H, icfg, imod, {"partial": "view-indexes"}, "LevelsIsDeepest"), (H, icfg, imod, {"partial": "index-guards"}, "LevelsIsDeepest"),
+                    # an existing empty directory served as if an earlier call had left it: the fresh call leaves no index
+                    (H, ecfg, emod, {"emptydir": "served", "maxlen": 2}, "CompletedIsIndexed"),
+                    # the format machine: base layer saved in the input's own format / the index naming it / an explicit format=
+                    # request honoured for the base layer only
+                    (F, fcfg, fmod, {"base": "image"}, "TemplateAddressesFiles"), (F, fcfg, fmod, {"recorded": "image"}, "TemplateAddressesFiles"),
+                    (F, fcfg, fmod, {"request": "honoured"}, "TemplateAddressesFiles")]
 
         def run_variant(v):
-            c0, mod, variant, inv = v
+            (module, template), c0, mod, variant, inv = v
             c2 = dict(c0)
             c2.update(variant)
-            rv = ctx.tlc("MCWtmlHistory", extra=mod, cfg_text=(HISTORY_CFG % c2).replace("INVARIANT Emit\n", ""), workers=1,
+            rv = ctx.tlc(module, extra=mod, cfg_text=(template % c2).replace("INVARIANT Emit\n", ""), workers=1,
                          timeout=600, expect_violation=True, count=False)
             return variant, inv, rv.violated
-        with ThreadPoolExecutor(3) as tp:
+        with ThreadPoolExecutor(4) as tp:
             for variant, inv, got in tp.map(run_variant, variants):
                 if got != inv:
                     ctx.machinery("history machine variant %s: expected %s to be refuted, TLC says %r" % (variant, inv, got))
         lap("variants_tlc")
         hdone = pending_h.get(6000)
+        fdone = pending_f.get(6000)
         lap("replays")
 
         # ---------------------------------------------------------------- judge every observation (b) + (c)
         cases, index = [], {}
         judged = []        # (workflow, step number, obs, case number)
+        diverged = set()   # histories in which a call left no index where the machine has one (reported): their later calls are
+        #                    judged and compared with the index on disk, but no longer matched against the machine's branches
 
         def case_of(o):
             wt = o["wtml"]
@@ -965,7 +1199,7 @@ def run(ctx):
                               "writes": [(tuple(p), f) for p, f in o["writes"]]})
             return index[key]
 
-        for w in list(done) + list(hdone):
+        for w in list(done) + list(hdone) + list(fdone):
             if "error" in w:
                 ctx.drift("workflow %s raised after %d of %d steps (%s): %s" % (w["name"], len(w["obs"]), len(w["steps"]), " ; ".join(_steps(w)),
                                                                               w["error"].splitlines()[0][:200]))
@@ -974,11 +1208,27 @@ def run(ctx):
                 c = case_of(o)
                 if c is None and not o["wtml"] and "spec" in w and not w["spec"][k]["indexed"]:
                     continue        # an interrupted run / a reuse of what it left: no index, no claim to judge
+                if c is None and not o["wtml"] and "fspec" in w and "raised" in o:
+                    # the call failed loudly and left no index: no claim to judge (whatever index exists IS judged)
+                    if w["fspec"]["stage"] == "indexed":
+                        ctx.drift("%s (%s) raised where the machine writes an index: %s" % (w["name"], _step_text(w["steps"][k]), o["raised"]))
+                    else:
+                        ctx.trace_ok()
+                        ctx.distinct(("fmt", tuple(sorted(w["fspec"]["cfg"].items()))))
+                    continue
                 if c is None:
+                    what = ""
+                    if "ret" in o:
+                        what = "; the call returned normally and handed back Url %r, FileType %r, TileLevels %r" % (
+                            o["ret"]["imgset"].get("url"), o["ret"]["imgset"].get("file_type"), o["ret"]["imgset"].get("tile_levels"))
+                    diverged.add(w["name"])
+                    if w.get("start_empty"):
+                        what += " (the directory existed, EMPTY, before the first call of the history: nothing in it was left by an earlier call)"
                     ctx.violation("C17:%s:no-wtml" % w["group"], "%s step %d (%s; out_dir spelled %s): the directory the caller named holds %d tile files and "
-                                  "index_rel.wtml is missing or does not hold exactly one ImageSet with a Url: %r"
-                                  % (w["name"], k + 1, " ; ".join(_steps(w)[:k + 1]), w.get("path_style", "abs"), len(o["files"]), o["wtml"]),
-                                  {"workflow": w["name"], "steps": _steps(w), "out_dir_spelling": w.get("path_style", "abs")})
+                                  "index_rel.wtml is missing or does not hold exactly one ImageSet with a Url: %r%s"
+                                  % (w["name"], k + 1, " ; ".join(_steps(w)[:k + 1]), w.get("path_style", "abs"), len(o["files"]), o["wtml"], what),
+                                  {"workflow": w["name"], "steps": _steps(w), "out_dir_spelling": w.get("path_style", "abs"),
+                                   "directory_existed_empty_before_first_call": bool(w.get("start_empty"))})
                     continue
                 judged.append((w, k, o, c))
         outj = os.path.join(ctx.scratch, "judge.json")
@@ -1002,6 +1252,19 @@ def run(ctx):
                 if o["files"] and not o["writes"]:
                     ctx.drift("%s: the save hook saw no tile being written (%d write_image calls); only the directory listing was judged"
                               % (where, o["nwrite_calls"]))
+                if g == "builder-toast-format-kwarg":
+                    # one finding, one key: what the index says against what the explicit format= left on disk
+                    bad = [t for t, on in (("tiles not at the Url's paths", v["wrong"]), ("files no position of the Url reaches", v["stray"]),
+                                           ("FileType is not the tiles' extension", v["badext"] or not v["ftype_t"]),
+                                           ("TileLevels is not the deepest layer the Url reaches", not v["levels_ok"]),
+                                           ("positions share a name", v["clash"])) if on]
+                    if bad:
+                        gq = w["fspec"]["cfg"]
+                        ctx.violation("C17:builder-toast:format-kwarg", "%s: Builder(PyramidIO(default_format=%r)).toast_base(sampler, %d, format=%r), cascade(), "
+                                      "write_index_rel_wtml(): the index records Url %r, FileType %r, TileLevels %d; the directory holds %s: %s"
+                                      % (where, gq["fmt"], gq["depth"], gq["req"], case["url"], case["ftype"], case["levels"],
+                                         sorted(case["files"])[:5], "; ".join(bad)), rep)
+                    continue
                 if v["wrong"]:
                     p, f = v["wrong"][0]
                     ctx.violation("C17:%s:tile-not-at-template-path" % g, "%s: the tile of position %s was written at %r; Url %r points elsewhere (%d such tiles)"
@@ -1022,6 +1285,26 @@ def run(ctx):
                 ctx.sample({"workflow": w["name"], "url": case["url"], "file_type": case["ftype"], "tile_levels": case["levels"],
                             "tile_files": len(case["files"]), "saves_observed": len(case["writes"]), "deepest_populated": v["deepest"]})
 
+        # ---------------------------------------------------------------- (b') the directory the format machine predicts
+        clean = lambda v: not (v["wrong"] or v["clash"] or v["stray"] or v["badext"]) and v["ftype_t"] and v["levels_ok"]      # noqa: E731
+        for w, k, o, c in judged:
+            if "fspec" not in w:
+                continue
+            row, a = w["fspec"], o["wtml"][0]
+            ctx.trace_ok()
+            ctx.distinct(("fmt", tuple(sorted(row["cfg"].items()))))
+            pred = (sorted(join(f) for f in row["files"]), join(row["url"]), join(row["ftype"]), str(row["levels"]))
+            real = (sorted(o["files"]), a["url"], a["file_type"], str(a["tile_levels"]))
+            if clean(verdicts[c]) and (row["stage"] != "indexed" or pred != real or "raised" in o):
+                # (a violation, if any, has been reported from the judge's verdict: this is only the implementation-shaped part)
+                ctx.drift("%s (%s): the index and the directory satisfy the property's sentences but are not what the format machine predicts "
+                          "(stage %s, %d files, Url %s, TileLevels %s; real: %d files, Url %s, TileLevels %s%s)"
+                          % (w["name"], _step_text(w["steps"][k]), row["stage"], len(pred[0]), pred[1], pred[3], len(real[0]), real[1], real[3],
+                             "; raised " + o["raised"] if "raised" in o else ""))
+            if len([x for x in ctx.samples if "format_case" in x]) < 2 and row["cfg"]["fmt"] != own[row["cfg"]["kind"]] and row["cfg"]["w"] > 256:
+                ctx.sample({"format_case": row["cfg"], "input_own_format": own[row["cfg"]["kind"]], "url": a["url"], "file_type": a["file_type"],
+                            "tile_levels": a["tile_levels"], "tile_files": len(o["files"])})
+
         # ---------------------------------------------------------------- (c) returned description and predicted directory
         nh = nint = 0
         for w in list(done) + list(hdone):
@@ -1038,12 +1321,15 @@ def run(ctx):
                     st = spec[k]
                     kind = st["kind"]
                 else:
-                    st, kind = None, ("fresh" if not o["existed"] else ("override" if w["steps"][k][1]["override"] else "reuse"))
+                    st, kind = None, ("fresh" if (not o["existed"] or o.get("was_empty")) else ("override" if w["steps"][k][1]["override"] else "reuse"))
                 rep = {"workflow": w["name"], "steps": _steps(w)[:k + 1], "out_dir_spelling": w.get("path_style", "abs"),
                        "note": "all calls of a history are made by one process"}
                 where = "%s call %d (%s; out_dir spelled %s)" % (w["name"], k + 1, " ; ".join(_steps(w)[:k + 1]), w.get("path_style", "abs"))
-                real_kind = ("fresh" if not o["existed"] else ("override" if w["steps"][k][1]["override"] else "reuse"))
-                if real_kind != kind:
+                # (a directory that exists and holds nothing was left by no earlier call: the call that finds it is the fresh one)
+                real_kind = ("fresh" if (not o["existed"] or o.get("was_empty")) else ("override" if w["steps"][k][1]["override"] else "reuse"))
+                if real_kind != kind and w["name"] in diverged:
+                    kind, st = real_kind, None
+                elif real_kind != kind:
                     ctx.machinery("%s: the replay is in branch %s, the machine in %s" % (where, real_kind, kind))
                 core, other = diff_description(o["ret"], o["disk"])
                 if core:
@@ -1098,6 +1384,13 @@ def _step_text(step):
         return "toasty cascade --start <recorded TileLevels>"
     if kind == "builder-study":
         return "Builder(PyramidIO(scheme=%s)) %s study of %s" % (arg["scheme"], arg["mode"], os.path.basename(arg["image"]))
+    if kind == "builder-formats":
+        if arg["route"] == "toast":
+            return "Builder(PyramidIO(scheme=%s, default_format=%s)).toast_base(%s, %d%s), cascade, index" % (
+                arg["scheme"], arg["fmt"], arg["kind"], arg["depth"], ", format=%r" % arg["req"] if arg["req"] else "")
+        how = {"base": "Builder.tile_base_as_study", "prepare": "Builder.prepare_/execute_study_tiling", "direct": "study.tile_study_image"}[arg["route"]]
+        return "PyramidIO(scheme=%s, default_format=%s), %s of a %dx%d %s, cascade, index" % (
+            arg["scheme"], arg["fmt"], how, arg["w"], arg["h"], arg["kind"])
     if kind == "pipeline":
         return "pipeline process-todos of %s" % os.path.basename(arg["image"])
     return kind
